@@ -25,6 +25,16 @@ def _i8(b, o):
 
 
 def decode(b, follow="header"):
+    """Robust front end: whatever is wrong with the bytes, the caller gets a FormatError (never a struct.error / IndexError of this module)."""
+    try:
+        return _decode(b, follow)
+    except FormatError:
+        raise
+    except (struct.error, IndexError, ValueError, KeyError, OverflowError, MemoryError) as e:
+        raise FormatError("not decodable: %s: %s" % (type(e).__name__, e))
+
+
+def _decode(b, follow="header"):
     """Decode a C3D byte string.  Returns a dict:
        hdr: header fields; nblocks, proc; groups {id: {...}}; params [ {...} ] in file order;
        frames: list of (points [(x,y,z,r) bit patterns], analogs [sub][channel] bit patterns)
@@ -199,6 +209,8 @@ def param_values(p):
     cnt = 1
     for d in dims:
         cnt *= d
+    if len(raw) < cnt * abs(t):
+        raw = raw + b"\0" * (cnt * abs(t) - len(raw))      # data cut short by the end of the file: decode() has reported params/data_truncated
     if t == -1:
         if len(dims) == 0:
             return [raw[:1]]
